@@ -37,19 +37,19 @@ type gen struct {
 	tags   []string // tags of enclosing tagbodies in the current function activation
 	bctr   int
 	maker  string // name of a defined function that returns a closure counting up from its argument
-	ctl    bool // profile: generate non-local exits, cleanups, errors
-	noExit int  // > 0 while inside a position from which an exit is not generated (cleanup forms, binding init forms)
+	ctl    bool   // profile: generate non-local exits, cleanups, errors
+	noExit int    // > 0 while inside a position from which an exit is not generated (cleanup forms, binding init forms)
 }
 type fdef struct {
 	name  string
 	arity int
 }
 
-func I(n int) N          { return N{"k": "int", "v": n} }
-func lit(v N) N          { return N{"k": "lit", "v": v} }
-func nilV() N            { return N{"k": "nil"} }
-func (g *gen) fresh() string { g.vctr++; return fmt.Sprintf("v%d", g.vctr) }
-func (g *gen) m(e N) N   { g.mark++; return N{"k": "mark", "id": g.mark, "e": e} }
+func I(n int) N               { return N{"k": "int", "v": n} }
+func lit(v N) N               { return N{"k": "lit", "v": v} }
+func nilV() N                 { return N{"k": "nil"} }
+func (g *gen) fresh() string  { g.vctr++; return fmt.Sprintf("v%d", g.vctr) }
+func (g *gen) m(e N) N        { g.mark++; return N{"k": "mark", "id": g.mark, "e": e} }
 func (g *gen) one(n int) bool { return g.rng.Intn(n) == 0 }
 
 // exitForm returns a non-local exit that is legal here, or nil
@@ -172,7 +172,9 @@ func (g *gen) num(d int, vars []string) N {
 		call := func(f string) N {
 			return g.m(N{"k": "fcall", "f": N{"k": "var", "n": f}, "args": []any{g.num(d-2, vars)}, "spread": false})
 		}
-		mk := func() N { return N{"k": "call", "f": g.maker, "args": []any{g.noex(func() N { return g.num(d-2, vars) })}} }
+		mk := func() N {
+			return N{"k": "call", "f": g.maker, "args": []any{g.noex(func() N { return g.num(d-2, vars) })}}
+		}
 		return N{"k": "letx", "bs": []any{N{"n": a, "e": mk()}, N{"n": b, "e": mk()}},
 			"body": []any{call(a), call(b), call(a), g.m(N{"k": "add", "a": call(b), "b": call(a)})}}
 	case ch < 20:
